@@ -7,6 +7,10 @@ namespace sim {
 
 #define TRY(stmt) do { try { stmt; return 0; } catch (const std::exception &) { return 1; } } while (0)
 
+// the refused member of a replace-whole-list call sits anywhere in the list: first, between acceptable ones, or last
+template<typename T> static void put_somewhere(std::vector<T> &v, const T &x, sim::Rng &r) { v.insert(v.begin() + (long) r.below(v.size() + 1), x); }
+static bool wants_foreign(int sel) { unsigned u = ((unsigned) sel) % 10; return u == 1 || u == 2; }
+
 static const char *kUnknownId = "00000000-dead-4bad-8bad-00000000beef";
 
 template<typename T> T World::via_live(int kind, const T &fresh, T Kept::*member) {
@@ -495,7 +499,7 @@ int World::exec_entity(const Op &op) {
         Rng r(op.sub);
         for (auto &s : all) if (r.chance(1, 2)) pick.push_back(s);
         arg_class = "own";
-        if (((unsigned) a[4]) % 10 == 1 && f.blockCount() > 1) { Source fs = foreign_src(a[1], a[3]); if (fs) { pick.push_back(fs); arg_class = "foreign-member"; } }
+        if (wants_foreign(a[4]) && f.blockCount() > 1) { Source fs = foreign_src(a[1], a[3]); if (fs) { put_somewhere(pick, fs, r); arg_class = "foreign-member"; } }
         WITH_SRC_ENT(a[0], a[1], a[2], TRY(e.sources(pick)); )
     }
     // ------------------------------------------------------------------ tags and multi-tags
@@ -558,7 +562,7 @@ int World::exec_entity(const Op &op) {
         std::vector<DataArray> pick; Rng r(op.sub);
         for (auto &x : b.dataArrays()) if (r.chance(1, 2)) pick.push_back(x);
         arg_class = "own";
-        if (((unsigned) a[4]) % 10 == 1 && f.blockCount() > 1) { DataArray fx = foreign_arr(a[0], a[3]); if (fx) { pick.push_back(fx); arg_class = "foreign-member"; } }
+        if (wants_foreign(a[4]) && f.blockCount() > 1) { DataArray fx = foreign_arr(a[0], a[3]); if (fx) { put_somewhere(pick, fx, r); arg_class = "foreign-member"; } }
         WITH_TAG(a[1], a[0], a[2], TRY(t.references(pick)); )
     }
     case OP_feat_create: {
@@ -665,12 +669,13 @@ int World::exec_entity(const Op &op) {
         Block b = blk(a[0]);
         int mk = ((unsigned) a[2]) % 4;
         Rng r(op.sub);
-        bool foreign = ((unsigned) a[4]) % 10 == 1 && f.blockCount() > 1;
+        bool foreign = wants_foreign(a[4]) && f.blockCount() > 1;
         arg_class = foreign ? "foreign-member" : "own";
-        if (mk == 0) { std::vector<DataArray> v; for (auto &x : b.dataArrays()) if (r.chance(1, 2)) v.push_back(x); if (foreign) { DataArray y = foreign_arr(a[0], a[3]); if (y) v.push_back(y); } TRY(g.dataArrays(v)); }
-        if (mk == 1) { std::vector<DataFrame> v; for (auto &x : b.dataFrames()) if (r.chance(1, 2)) v.push_back(x); if (foreign) { DataFrame y = frame_at(a[0] + 1, a[3]); if (y) v.push_back(y); } TRY(g.dataFrames(v)); }
-        if (mk == 2) { std::vector<Tag> v; for (auto &x : b.tags()) if (r.chance(1, 2)) v.push_back(x); if (foreign) { Tag y = foreign_tag(a[0], a[3]); if (y) v.push_back(y); } TRY(g.tags(v)); }
-        { std::vector<MultiTag> v; for (auto &x : b.multiTags()) if (r.chance(1, 2)) v.push_back(x); if (foreign) { MultiTag y = mtag_at(a[0] + 1, a[3]); if (y) v.push_back(y); } TRY(g.multiTags(v)); }
+        int keep = r.range(1, 3);      // how many of the block's entities go into the list: about a third, a half or two thirds
+        if (mk == 0) { std::vector<DataArray> v; for (auto &x : b.dataArrays()) if (r.chance(keep, 4)) v.push_back(x); if (foreign) { DataArray y = foreign_arr(a[0], a[3]); if (y) put_somewhere(v, y, r); } TRY(g.dataArrays(v)); }
+        if (mk == 1) { std::vector<DataFrame> v; for (auto &x : b.dataFrames()) if (r.chance(keep, 4)) v.push_back(x); if (foreign) { DataFrame y = frame_at(a[0] + 1, a[3]); if (y) put_somewhere(v, y, r); } TRY(g.dataFrames(v)); }
+        if (mk == 2) { std::vector<Tag> v; for (auto &x : b.tags()) if (r.chance(keep, 4)) v.push_back(x); if (foreign) { Tag y = foreign_tag(a[0], a[3]); if (y) put_somewhere(v, y, r); } TRY(g.tags(v)); }
+        { std::vector<MultiTag> v; for (auto &x : b.multiTags()) if (r.chance(keep, 4)) v.push_back(x); if (foreign) { MultiTag y = mtag_at(a[0] + 1, a[3]); if (y) put_somewhere(v, y, r); } TRY(g.multiTags(v)); }
     }
     // ------------------------------------------------------------------ sections
     case OP_sec_link: {
